@@ -57,6 +57,7 @@ type FuncContract struct {
 	ignore    []string // callees whose contracts are not used in this body
 	only      []string // if non-empty: the only callees whose contracts are used in this body
 	theories  []string // built-in theories switched on for this body ("numerals")
+	opaque    []string // callees treated as unknown code (never expanded, contract not used)
 	dbonly    []string // callees assumed to change only database buckets and Go maps (results arbitrary)
 	cbObserves map[string]string // callback <param> observes <ghost>
 	asserts   map[ast.Stmt][]*Clause // at "<stmt>" assert P
@@ -372,7 +373,7 @@ func installUniverse() {
 
 var clauseKinds = map[string]bool{"guard": true, "callback": true, "step": true, "requires": true, "ensures": true, "invariant": true, "decreases": true,
 	"modifies": true, "props": true, "trusted": true, "pure": true, "inline": true, "unroll": true, "lemma": true,
-	"assume": true, "nopanic": true, "dead": true, "expand": true, "ignore": true, "only": true, "assert": true, "heapframe": true, "skip": true, "dbonly": true, "theory": true}
+	"assume": true, "nopanic": true, "dead": true, "expand": true, "ignore": true, "only": true, "assert": true, "heapframe": true, "skip": true, "dbonly": true, "theory": true, "opaque": true}
 
 var headRe = regexp.MustCompile(`^func\s+(.+)$`)
 var scopeRe = regexp.MustCompile(`^(loop|closure|if)#(\d+)\s+(.*)$`)
@@ -1414,6 +1415,10 @@ func (p *Program) fillContract(fc *FuncContract, clauses []*rawClause, body *ast
 		case "theory":
 			// theory numerals: the generator's lemmas about decimal numerals are added at string operations of this body
 			fc.theories = append(fc.theories, strings.Fields(rc.text)...)
+		case "opaque":
+			// opaque <func>...: calls of these functions are neither expanded from source nor replaced by a contract:
+			// arbitrary results, everything may change (used for goroutine hand-shakes over channels in lemma-level contracts)
+			fc.opaque = append(fc.opaque, strings.Fields(rc.text)...)
 		case "dbonly":
 			// dbonly <func>...: in this body these callees are assumed to change nothing but database buckets and Go
 			// maps (no object in memory); results arbitrary, no precondition proved, nothing of their postcondition used
